@@ -29,7 +29,7 @@ VARIANTS = {
     # ASan+UBSan, recoverable so that the explorers can attribute a report to a case
     "asan": dict(cc="clang",
                  cflags=["-O1", "-g", "-fno-omit-frame-pointer", "-fsanitize=address,undefined",
-                         "-fno-sanitize=pointer-overflow", "-fsanitize-recover=address,undefined",
+                         "-fno-sanitize=pointer-overflow,null,object-size", "-fsanitize-recover=address,undefined",
                          "-Wno-unused-command-line-argument"],
                  ldflags=["-fsanitize=address,undefined"]),
     # optimised, no sanitizer: for the very large enumerations whose oracle is a reference model
